@@ -38,7 +38,7 @@ LEVEL_TEXT = ('Props.C19.refines_dict: for every construction route (mapping, pa
               'Props.C19M.soundM: for every name of single-spaced words of atom characters and dots and every address that is a dot-atom or two dot-atoms around one @, the model of MaintainerField.from_value("name <address>") - strip, the model of email.utils.parseaddr '
               '(phrase list, route address, addr-spec loop, domain), then dumps() - returns exactly that name, that address and the unchanged text (first_addr: the address parser returns (name, address) on that grammar, by induction over the words, the local atoms and the domain atoms). '
               'The model of parseaddr is tied to CPython by correspondence on adversarial strings over the parser\'s special characters (comments, quotes, routes, domain literals, stray @ and dots); address groups are outside the model. '
-              'Props.C19R.soundR: for every paragraph of uniquely named fields (names of letters, digits and hyphens in any case; values without carriage returns, trimmed, later lines indented) the model of '
+              'Props.C19R.soundR: for every paragraph of uniquely named fields (policy-legal names - printable ASCII without colon or space, not starting with # or - - in any case; values without carriage returns, trimmed, later lines indented) the model of '
               'Debian822(Debian822(pairs).dumps()).to_dict() - the mapping built from the pairs, its rendering under the conventional capitalisation, signature removal, the model of the header parser - is the paragraph itself under '
               'lower-cased names: the rendering is a one-paragraph document of the C06 grammar (dumps_eq, field_facts), the conventional capitalisation of a name lower-cases back to it (lowerAscii_conventional), the text is not taken for a '
               'signed message (not_signed), and the header-parser theorem of C06 (getParagraphData_para) does the rest. '
@@ -214,7 +214,7 @@ def wf_r(inp):
     if not inp:
         return False
     for k, v in inp:
-        if not re.fullmatch(r'[A-Za-z][A-Za-z0-9-]*', k):
+        if not re.fullmatch(r'[!-9;-~]+', k) or k[0] in '-#':
             return False
         if '\r' in v or v != v.strip() or any(not l[:1] in (' ', '\t') for l in v.split('\n')[1:]):
             return False
@@ -326,7 +326,7 @@ def maint(rng):
 
 
 R_NAMES = ['Package', 'version', 'X-Build-Id', 'DEPENDS', 'x-foo', 'Checksums-Sha256', 'md5sum', 'X-SHA1-sum', 'Description', 'a', 'B2', 'unknown', 'From', 'Installed-Size', 'a-', 'x--y', 'Licence']
-R_ODD_NAMES = ['X_Foo', 'a b', '', ':', '-a', '2a', 'a:b', 'From ', '#c', 'a\tb']
+R_ODD_NAMES = ['X_Foo', 'a b', '', ':', '-a', '2a', 'a:b', 'From ', '#c', 'a\tb', 'a.b+c/d', '_', '~x', 'a#b', 'caf\xe9', '>From', 'A=B', '(c)']
 R_FIRST = ['foo', '1.0-1', 'a: b', 'http://x:80/y?z', '.dot', 'From me', 'x  y', '(>= 1.0), b | c', ':', '"q"', '-', 'p\x0cq', '\xe9t\xe9', '#hash', '-----BEGIN PGP SIGNED MESSAGE-----']
 R_CONTS = [' cont', '\tcont', '  two', ' .', ' a: b', ' From x', ' #', ' \xe9', '  -----END PGP SIGNATURE-----']
 
